@@ -12,6 +12,7 @@ import Driver.DbgH
 import Driver.Edit
 import Driver.CmdProto
 import Driver.Asm
+import Driver.SrcH
 open Lace Lace.Driver
 
 /-- `X02 stackOn minimal instr <machine> inp-hex`
@@ -79,6 +80,8 @@ def handle (line : String) : String :=
   | "R14" :: rest => handleR14 rest
   | "A01" :: rest => handleA01 rest
   | "A19" :: rest => handleA19 rest
+  | "E15" :: rest => handleSrc "E15" rest
+  | "V17" :: rest => handleSrc "V17" rest
   | _ => "bad-request"
 
 partial def loop (h : IO.FS.Stream) (out : IO.FS.Stream) : IO Unit := do
